@@ -41,15 +41,16 @@ Record gap := mkgap {
   g_next : nextk
 }.
 
-(* The model is the code as it is for cfg_asis.  Each flag switches one proposed repair on (the three
-   places where the pinned code differs from protoc, see Props/C03.v):
+(* The model is the code as it is for cfg_repaired: the three flags stand for the three repairs that went
+   into the repository (fix: commits e67d3d01, 574d1b31, 1915eb6c); cfg_pinned is the code before them,
+   kept for the refutations in Props/C03.v:
      fix_ws:    combineComments also strips carriage return, vertical tab and form feed at the start of the
                 lines of a block comment (protoc's WhitespaceNoNewline)
      fix_empty: newLocWithGivenComments does not set a leading / trailing comment whose text is empty
      fix_sep:   maybeDonate treats comma and semicolon as the end of a scope only with extraComments *)
 Record cfg := mkcfg { fix_ws : bool; fix_empty : bool; fix_sep : bool }.
-Definition cfg_asis : cfg := mkcfg false false false.
-Definition cfg_fixed : cfg := mkcfg true true true.
+Definition cfg_pinned : cfg := mkcfg false false false.
+Definition cfg_repaired : cfg := mkcfg true true true.
 
 Fixpoint count_nl (s : list N) : nat :=
   match s with
@@ -263,9 +264,9 @@ Definition go_attribution_mode (cf : cfg) (extra : bool) (g : gap) : comments_ou
   let '(t, d, l) := go_roles cf extra g in
   (set_field cf t, map (combine cf) d, set_field cf l).
 
-(* standard source info, the code as it is / with the three repairs *)
-Definition go_attribution (g : gap) : comments_out := go_attribution_mode cfg_asis false g.
-Definition go_attribution_fixed (g : gap) : comments_out := go_attribution_mode cfg_fixed false g.
+(* standard source info: the code as it is, and the code before the three repairs *)
+Definition go_attribution (g : gap) : comments_out := go_attribution_mode cfg_repaired false g.
+Definition go_attribution_pinned (g : gap) : comments_out := go_attribution_mode cfg_pinned false g.
 
 (* ---- locations: newLoc / newLocWithComments / newLocWithoutComments, commentsUsed, mode flags ---- *)
 (* a comment is identified by the gap it is in and its position there (the Go code uses its SourcePos) *)
@@ -399,6 +400,18 @@ Definition gap_of_bytes (has_prev : bool) (bs : list N) (next : nextk) : option 
                Some (mkgap has_prev pre (units_of (length ts) r) next)
   end.
 
+(* wf_gap as a boolean: the correspondence also checks that every gap cut out of a real file has the
+   shape the theorems assume *)
+Fixpoint wf_unitsb (us : list cunit) (next : nextk) : bool :=
+  match us with
+  | [] => true
+  | u :: r =>
+    (u_blk u || negb (Nat.eqb (u_nls u) 0) ||
+     ((match r with [] => true | _ => false end) && (match next with NEof => true | _ => false end))) &&
+    wf_unitsb r next
+  end.
+Definition wf_gapb (g : gap) : bool := wf_unitsb (g_units g) (g_next g).
+
 (* ---- correspondence: what the harness observed on the implementation ---- *)
 Definition olist_eqb (a b : option (list N)) : bool := opt_list_N_eqb a b.
 Fixpoint llist_eqb (a b : list (list N)) : bool :=
@@ -427,6 +440,7 @@ Definition go_chk (c : gcase) : bool :=
   match gap_of_bytes (gc_prev c) (gc_bytes c) (gc_next c) with
   | None => false
   | Some g =>
+    wf_gapb g &&
     out_matches (go_attribution_mode (gc_cfg c) (gc_extra c) g) (gc_t c) (gc_dl c) &&
     match gc_lex c with
     | None => true
